@@ -12,7 +12,7 @@ import multiprocessing as mp
 import os
 
 from sa.model import AnalysisError
-from sa.report import Check
+from sa.report import Check, run_rules
 
 _G = {}
 
@@ -64,7 +64,7 @@ def _run_one(i):
         r2 = repo.with_overlay(overlay)
         mod = importlib.import_module("sa.rules.%s" % prop.lower())
         chk = Check(prop, "quick", r2, quiet=True)
-        mod.check(chk)
+        run_rules(mod, chk)
         new = [v for v in chk.violations if v["key"] not in base_keys]
         if not new:
             try:
